@@ -32,6 +32,27 @@ def applyDir (addr : Nat) (st : PSt) : Directive → PSt
 
 def present (addr : Nat) (dirs : List Directive) : PSt := dirs.foldl (applyDir addr) {}
 
+/-- an item of the `!> ` line: a directive for which a Present extension is mounted, or a name nobody mounted (a
+misspelt one, one of a feature that is compiled out) -/
+inductive LineItem
+  | known (d : Directive)
+  | unknown
+  deriving Repr
+
+/-- `resolve_present` over the line: names without extension are passed over, the others run in line order -/
+def mountedOf (line : List LineItem) : List Directive :=
+  line.filterMap fun
+    | .known d => some d
+    | .unknown => none
+
+def presentLine (addr : Nat) (line : List LineItem) : PSt := present addr (mountedOf line)
+
+/-- the seeded change C17-8: the line ends at the first name nobody mounted -/
+def mountedUntilUnknown : List LineItem → List Directive
+  | [] => []
+  | .known d :: rest => d :: mountedUntilUnknown rest
+  | .unknown :: _ => []
+
 def toOut (st : PSt) : Out :=
   { status := st.status, body := st.body, size := 100, pref := st.pref, stream := false, kccNone := st.kccNone,
     lifetimeS := none }
